@@ -54,6 +54,24 @@ impl Prop for P {
             let ty = if rng.chance(1, 6) { rng.next() } else { 0 };
             cases.push(build_case("extend", "all", ty, 10_000, 2, &map_ops(&with_values(&ks, &vals))));
         }
+        // histories with rejected calls (duplicates with smaller / larger values, smaller keys) in between: the bytes
+        // must equal those of the accepted sequence alone
+        for _ in 0..(nrand / 2).max(60) {
+            let ks = random_keyset(rng, 12, 4);
+            let vals = value_pattern(5, ks.len(), rng);
+            let mut ops = vec![];
+            for (i, k) in ks.iter().enumerate() {
+                ops.push(Op::Insert(k.clone(), vals[i]));
+                match rng.below(5) {
+                    0 => ops.push(Op::Insert(k.clone(), vals[i] / 2)),          // duplicate, smaller value
+                    1 => ops.push(Op::Insert(k.clone(), vals[i] + 1000)),       // duplicate, larger value
+                    2 if i > 0 => ops.push(Op::Insert(ks[i - 1].clone(), 1)),   // out of order
+                    _ => {}
+                }
+            }
+            cases.push(build_case("calls", "dirty", 0, 10_000, 2, &ops));
+            stats.bump("histories_with_rejected_calls");
+        }
         // key sets large enough that node-cache buckets overflow: front ends that silently used a different
         // cache geometry (or hash) would then emit different bytes
         let big: &[(&str, usize)] = if tier == Tier::Quick { &[("words-10000", 2500), ("wiki-urls-10000", 800)] } else { &[("words-10000", 10_000), ("wiki-urls-10000", 4000)] };
@@ -84,6 +102,23 @@ impl Prop for P {
         let ty: u64 = p[3].parse().unwrap();
         let ops = parse_ops(p[6]);
         let mut x = String::from("ok");
+        if p[2] == "dirty" {
+            // single calls incl. rejected ones, on the raw builder and on MapBuilder, vs the accepted calls only
+            let dirty_raw = exec_build("calls", "raw", ty, 10_000, 2, &ops);
+            let dirty_map = exec_build("calls", "map", ty, 10_000, 2, &ops);
+            let accepted: Vec<Op> = ops.iter().zip(dirty_raw.results.iter()).filter(|(_, r)| *r == "ok").map(|(o, _)| o.clone()).collect();
+            let clean = exec_build("extend", "raw_loop", ty, 10_000, 2, &accepted);
+            if dirty_raw.bytes != clean.bytes {
+                x = "raw builder: bytes after rejected calls differ from the accepted sequence alone".into();
+            }
+            if dirty_map.bytes != clean.bytes {
+                x = "MapBuilder: bytes after rejected calls differ from the accepted sequence alone".into();
+            }
+            let bytes = clean.bytes.unwrap();
+            let f = fst::raw::Fst::new(bytes.clone()).unwrap();
+            let kvs = f.stream().into_byte_vec();
+            return format!("S:r={};c={};len={}\tM:bytes={};bw=na;st=na\tX:{}", dirty_raw.results.join(","), fmt_kvs(&kvs), f.len(), hex(&bytes), x);
+        }
         let bytes = match all_paths_bytes(ty, &ops) {
             Ok(b) => b,
             Err(e) => {
